@@ -708,25 +708,78 @@ def _map_insert_new(E, oid, md, key, val):
 def s_entry(E, a, info):
     oid, md = E.map_of(a[0])
     k = E.map_find(md, a[1])
-    return Agg('Entry', None, (oid, a[1], k if k is not None else NONE))
+    if k is not None:
+        return Agg('Entry', 'Occupied', (Agg('OccupiedEntry', None, (oid, a[1], k)),))
+    return Agg('Entry', 'Vacant', (Agg('VacantEntry', None, (oid, a[1], NONE)),))
 
 
 @summ('Entry::and_modify')
 def s_and_modify(E, a, info):
-    oid, key, found = a[0].fields
-    if found is not NONE and not (isinstance(found, Agg) and found == NONE):
+    if a[0].variant == 'Occupied':
+        oid, key, found = a[0].fields[0].fields
         E.call_closure(a[1], [Ptr(oid, (('val', found),))])
     return a[0]
 
 
 def _entry_found(e):
-    f = e.fields[2]
-    return None if (isinstance(f, Agg) and f.name == 'Option' and f.variant == 'None') else f
+    return e.fields[0].fields[2] if e.variant == 'Occupied' else None
+
+
+def _entry_parts(e):
+    oid, key, _ = e.fields[0].fields
+    return oid, key
+
+
+@summ('OccupiedEntry::get', 'OccupiedEntry::get_mut', 'OccupiedEntry::into_mut')
+def s_occ_get(E, a, info):
+    e = a[0] if isinstance(a[0], Agg) else E.read(a[0])
+    oid, key, found = e.fields
+    return Ptr(oid, (('val', found),))
+
+
+@summ('OccupiedEntry::key')
+def s_occ_key(E, a, info):
+    e = E.read(a[0])
+    oid, key, found = e.fields
+    return Ptr(oid, (('key', found),))
+
+
+@summ('OccupiedEntry::insert')
+def s_occ_insert(E, a, info):
+    e = E.read(a[0])
+    oid, key, found = e.fields
+    md = E.heap[oid].value
+    old = md.vals[found]
+    md.vals[found] = a[1]
+    return old
+
+
+@summ('OccupiedEntry::remove', 'OccupiedEntry::remove_entry')
+def s_occ_remove(E, a, info):
+    oid, key, found = a[0].fields
+    md = E.heap[oid].value
+    v = md.vals.pop(found)
+    md.keys.remove(found)
+    return v if info['key'].endswith('remove') else tup(found, v)
+
+
+@summ('VacantEntry::insert')
+def s_vac_insert(E, a, info):
+    oid, key, _ = a[0].fields
+    md = E.heap[oid].value
+    _map_insert_new(E, oid, md, key, a[1])
+    return Ptr(oid, (('val', key),))
+
+
+@summ('VacantEntry::key')
+def s_vac_key(E, a, info):
+    e = E.read(a[0])
+    return Ptr(E.new_obj('tmp', e.fields[1]))
 
 
 @summ('Entry::or_insert')
 def s_or_insert(E, a, info):
-    oid, key, _ = a[0].fields
+    oid, key = _entry_parts(a[0])
     md = E.heap[oid].value
     found = _entry_found(a[0])
     if found is None:
@@ -742,7 +795,7 @@ def s_or_default(E, a, info):
 
 @summ('Entry::or_insert_with')
 def s_or_insert_with(E, a, info):
-    oid, key, _ = a[0].fields
+    oid, key = _entry_parts(a[0])
     md = E.heap[oid].value
     found = _entry_found(a[0])
     if found is None:
